@@ -672,6 +672,14 @@ pub fn check(tier_name: &str, base_seed: u64) -> Outcome {
         }
     }
     all_violating.sort_by_key(|(k, i, _)| (*k, *i));
+    if !all_violating.is_empty() || !soak_violating.is_empty() {
+        println!(
+            "runs with at least one mismatch: {} of {} (+ {} soak runs)",
+            all_violating.len(),
+            ex.agg.runs,
+            soak_violating.len()
+        );
+    }
     let mut replay_paths = Vec::new();
     let mut unconfirmed = Vec::new();
     let max_report = 5;
